@@ -41,6 +41,9 @@ pub struct IoPlan {
     pub stop_at_input_byte: Option<u64>,
     /// Seed of the bytes `getrandom` returns inside the run (None: the real system call).
     pub entropy_seed: Option<u64>,
+    /// Disruptive: the pipe's writer stalls after this many bytes: the read that would go beyond does not
+    /// return (the pipe stays open, no end of input).
+    pub stall_at: Option<u64>,
 }
 
 #[derive(Debug, Default, Clone)]
@@ -235,6 +238,8 @@ pub enum ReadAction {
     Done(usize),
     /// Fail with this errno.
     Fail(i32),
+    /// The read does not return: the input has stalled.
+    Stall,
 }
 
 pub const EINTR: i32 = 4;
@@ -282,6 +287,16 @@ pub fn on_read(fd: i32, buf: &mut [u8], is_input_file: bool, file_pos: Option<u6
             // deliver bytes up to the fault position first
             if (e as usize) < end {
                 end = e as usize;
+            }
+        }
+        if let Some(k) = st.plan.stall_at {
+            // bytes up to the stall position are delivered; the next read never returns (never on the main thread,
+            // which only reads the first bytes of the input: the run itself lives on it)
+            if (k as usize) < end {
+                end = k as usize;
+                if pos >= end && crate::sched::current_tid().map_or(false, |t| t != 0) {
+                    return ReadAction::Stall;
+                }
             }
         }
         let avail = end.saturating_sub(pos);
